@@ -225,9 +225,59 @@ def kt_kr_checks(ctx, rng):
     return None, None
 
 
+def kt_kr_correspondence(ctx, rng):
+    """H: the hand model Model/PenaltyConstants.lean of calc_kt_kr (run at Q through the driver on the exact float laminate data) against
+    the running Python, all five connection types in mixed case, unequal laminates and footprints, plus an unknown type"""
+    from compmech.panel import connections
+    from tools.common import driver, q, unq
+    lines, impl = [], []
+    types = ['xcte', 'ycte', 'bot-top', 'xcte-ycte', 'ycte-xcte', 'XCTE', 'Bot-Top', 'yCte-xcTE', 'zcte']
+    for t in range(ctx.scale(18, 120)):
+        c1 = pc.gen_panel_case(rng, models=('Plate',), max_mn=2, y12=False)
+        c2 = pc.gen_panel_case(rng, models=('Plate',), max_mn=2, y12=False)
+        for c_ in (c1, c2):
+            if len(c_['laminaprop']) == 3:
+                c_['laminaprop'] = (142.5e9, 8.7e9, 0.28, 5.1e9, 5.1e9, 5.1e9)
+        ctype = types[t % len(types)]
+        p1, p2 = pc.make_panel(c1), pc.make_panel(c2)
+        try:
+            got = pc.quiet(connections.calc_kt_kr, p1, p2, ctype)
+        except Exception as e:                        # noqa
+            got = ('raised', type(e).__name__)
+        L = [[float(p.lam.A[0, 0]), float(p.lam.A[1, 1]), float(p.lam.D[0, 0]), float(p.lam.D[1, 1]), float(p.lam.t)] for p in (p1, p2)]
+        lines.append('C12 ktkr %s | %s | %s | %s' % (ctype, ' '.join(q(v) for v in L[0]), ' '.join(q(v) for v in L[1]), q(min(p1.a, p1.b))))
+        impl.append((ctype, got, c1, c2))
+    replies = driver(lines, pid='C12')
+    for (ctype, got, c1, c2), rep in zip(impl, replies):
+        ctx.evaluations += 1
+        bad = None
+        if rep == 'none':
+            if got is not None:
+                bad = 'model: no result for connection type %r, implementation: %r' % (ctype, got)
+        elif rep.startswith('ok'):
+            _, kt, kr = rep.split()
+            want = (unq(kt), None if kr == '-' else unq(kr))
+            if not isinstance(got, tuple) or len(got) != 2 or got[0] == 'raised':
+                bad = 'model: %r, implementation: %r' % (rep, got)
+            else:
+                for name, w, g in (('kt', want[0], got[0]), ('kr', want[1], got[1])):
+                    if (w is None) != (g is None) or (w is not None and abs(float(w) - g) > 1e-12 * abs(float(w))):
+                        bad = '%s(%s): model %r, implementation %r' % (name, ctype, None if w is None else float(w), g)
+        else:
+            bad = 'driver: ' + rep
+        if bad:
+            ctx.violation('model Model/PenaltyConstants.lean and calc_kt_kr disagree: ' + bad, dict(c1=c1, c2=c2, ctype=ctype, tie='H kt_kr'),
+                          found_input=False)
+            return True
+    ctx.cov['kt_kr_model_vs_implementation_cases'] = len(impl)
+    return False
+
+
 def correspondence(ctx):
     ir = translate(ctx)
     rng = ctx.rng
+    if kt_kr_correspondence(ctx, rng):
+        return
     dist = dict(kinds={}, order={}, interior=0)
     for t in range(ctx.scale(30, 300)):
         case = gen(ctx, rng)
